@@ -39,12 +39,15 @@ x86-64 code: the last round drops the carry out of the top word, `adcs \dst11, \
 comparison subtracts `P` at most once); `T < P·2^384` resp. `a·b < P·2^384`, `a² < P·2^384` (implied by operands
 `< P`; the `_eq_portable` corollaries assume operands `< P` because `C02.fp_multiply` does).
 
-What is NOT here: the ARMv6-M (Thumb-1) routines (model `Impl/Thumb1.lean`, judge only).
+ARMv6-M (Thumb-1): the three BigInt<384> routines of bigint.s are at the end of this file (`armv6m_…`).  What is NOT
+here: the Thumb-1 multiplication / squaring / Montgomery routines of armv6_m/multiply.s (3.6k–5.6k straight-line instructions each, 21k in
+total; model `Impl/Thumb1.lean`, judge only).
 
-Proofs: `JediVerif/Proofs/A64Proofs{,Mul,Sqr,Mont,FpMul,FpSqr}.lean`.
+Proofs: `JediVerif/Proofs/A64Proofs{,Mul,Sqr,Mont,FpMul,FpSqr}.lean`, `JediVerif/Proofs/Thumb1Proofs.lean`.
 -/
 import JediVerif.Proofs.A64ProofsFpMul
 import JediVerif.Proofs.A64ProofsFpSqr
+import JediVerif.Proofs.Thumb1Proofs
 import JediVerif.Properties.C03
 import JediVerif.Properties.C03b
 
@@ -572,5 +575,256 @@ example :
   rw [show (BitVec.ofNat 64 0x20000).toNat = 0x20000 by decide] at h1 h2
   exact ⟨⟨h1.2.1, h1.2.2.1⟩, ⟨h2.2.1, h2.2.2.1⟩⟩
 end Examples
+
+/-! ## ARMv6-M (Thumb-1): BigInt<384> with 32-bit limbs
+
+`bigint_384_add`, `bigint_384_subtract`, `bigint_384_multiply2` of /repo/src/core/arch/armv6_m/bigint.s (programs of
+`JediVerif/Gen/AsmV6M.lean`, machine model `JediVerif/Impl/Thumb1.lean`, proofs `JediVerif/Proofs/Thumb1Proofs.lean`):
+twelve 32-bit words per operand, `ldm`/`stm` with write-back, the callee-saved R4–R6 pushed first (so the operands, too,
+must not overlap the pushed words), return by `bx lr` (LR must be a Thumb address: bit 0 set, otherwise ARMv6-M
+faults).  Same contract as above; `…_eq_portable` is the portable model at base `2^32` (the 32-bit-word configuration
+of the C++), `…_agrees_aarch64` compares the 384-bit values and the returned carry with the AArch64 routine.  The
+Thumb-1 multiplication, squaring and Montgomery routines (21k straight-line instructions) have no theorem. -/
+
+private theorem pow32_12 : ((2 : ℕ) ^ 32) ^ 12 = 2 ^ 384 := by rw [← Nat.pow_mul]
+
+private theorem limbs32_lt (m : Nat → Thumb1.Word) (p : Nat) : val (2 ^ 32) (Thumb1.limbs32 m p 12) < 2 ^ 384 := by
+  have := val_lt (Thumb1.limbs32_WF m p 12); rwa [Thumb1.limbs32_length, pow32_12] at this
+
+private theorem limbs32_carry_unique {x y : List Nat} {cx cy : Nat} (hx : WF (2 ^ 32) x) (hy : WF (2 ^ 32) y)
+    (lx : x.length = 12) (ly : y.length = 12) (hcx : cx ≤ 1) (hcy : cy ≤ 1)
+    (h : val (2 ^ 32) x + 2 ^ 384 * cx = val (2 ^ 32) y + 2 ^ 384 * cy) : x = y ∧ cx = cy := by
+  have bx := val_lt hx; have bY := val_lt hy
+  rw [lx, pow32_12] at bx; rw [ly, pow32_12] at bY
+  have hc : cx = cy := by
+    rcases Nat.le_one_iff_eq_zero_or_eq_one.1 hcx with rfl | rfl <;>
+    rcases Nat.le_one_iff_eq_zero_or_eq_one.1 hcy with rfl | rfl <;> omega
+  subst hc
+  exact ⟨val_inj hx hy (lx.trans ly.symm) (by omega), rfl⟩
+
+/-- ARMv6-M `bigint_384_add`: `res + 2^384·R0 = a + b`, `R0 ≤ 1`. -/
+theorem armv6m_bigint_384_add (s : Thumb1.State) (pr pa pb : Thumb1.Word) (fuel : Nat) (hfuel : 35 ≤ fuel)
+    (hst : s.status = .running) (hpc : s.pc = 0) (h0 : s.r0 = pr) (h1 : s.r1 = pa) (h2 : s.r2 = pb) (hlr : s.lr.toNat % 2 = 1)
+    (hr : Thumb1.Buf s pr 12 true) (ha : Thumb1.Buf s pa 12 false) (hb : Thumb1.Buf s pb 12 false)
+    (hra : Thumb1.SameOrDisjoint pr pa 12) (hrb : Thumb1.SameOrDisjoint pr pb 12)
+    (hstk : Thumb1.Stack s 3) (hrs : Thumb1.OffStack s 3 pr 12) (has : Thumb1.OffStack s 3 pa 12) (hbs : Thumb1.OffStack s 3 pb 12) :
+    Thumb1.Returned s (Thumb1.run Gen.AsmV6M.embedded_pairing_core_arch_armv6_m_bigint_384_add s fuel) ∧
+    val (2 ^ 32) (Thumb1.limbs32 (Thumb1.run Gen.AsmV6M.embedded_pairing_core_arch_armv6_m_bigint_384_add s fuel).mem pr.toNat 12) + 2 ^ 384 * (Thumb1.run Gen.AsmV6M.embedded_pairing_core_arch_armv6_m_bigint_384_add s fuel).r0.toNat
+      = val (2 ^ 32) (Thumb1.limbs32 s.mem pa.toNat 12) + val (2 ^ 32) (Thumb1.limbs32 s.mem pb.toNat 12) ∧
+    (Thumb1.run Gen.AsmV6M.embedded_pairing_core_arch_armv6_m_bigint_384_add s fuel).r0.toNat ≤ 1 ∧
+    (∀ k, ¬(pr.toNat ≤ k ∧ k < pr.toNat + 48) → ¬(s.sp.toNat - 12 ≤ k ∧ k < s.sp.toNat) →
+      (Thumb1.run Gen.AsmV6M.embedded_pairing_core_arch_armv6_m_bigint_384_add s fuel).mem k = s.mem k) := by
+  obtain ⟨s', h, hret, rest⟩ := Thumb1.bigint_384_add_run s pr pa pb hst hpc h0 h1 h2 hlr hr ha hb hra hrb hstk hrs has hbs
+  rw [Thumb1.run_fuel h hret.halted fuel hfuel]
+  exact ⟨hret, rest⟩
+
+/-- … hence the limbs and the carry of the portable `BigInt::add` on 32-bit words (`addLoop`, `C02.bigint_add`). -/
+theorem armv6m_bigint_384_add_eq_portable (s : Thumb1.State) (pr pa pb : Thumb1.Word) (fuel : Nat) (hfuel : 35 ≤ fuel)
+    (hst : s.status = .running) (hpc : s.pc = 0) (h0 : s.r0 = pr) (h1 : s.r1 = pa) (h2 : s.r2 = pb) (hlr : s.lr.toNat % 2 = 1)
+    (hr : Thumb1.Buf s pr 12 true) (ha : Thumb1.Buf s pa 12 false) (hb : Thumb1.Buf s pb 12 false)
+    (hra : Thumb1.SameOrDisjoint pr pa 12) (hrb : Thumb1.SameOrDisjoint pr pb 12)
+    (hstk : Thumb1.Stack s 3) (hrs : Thumb1.OffStack s 3 pr 12) (has : Thumb1.OffStack s 3 pa 12) (hbs : Thumb1.OffStack s 3 pb 12) :
+    Thumb1.limbs32 (Thumb1.run Gen.AsmV6M.embedded_pairing_core_arch_armv6_m_bigint_384_add s fuel).mem pr.toNat 12 = (addLoop (2 ^ 32) (Thumb1.limbs32 s.mem pa.toNat 12) (Thumb1.limbs32 s.mem pb.toNat 12) 0).1 ∧
+    (Thumb1.run Gen.AsmV6M.embedded_pairing_core_arch_armv6_m_bigint_384_add s fuel).r0.toNat = (addLoop (2 ^ 32) (Thumb1.limbs32 s.mem pa.toNat 12) (Thumb1.limbs32 s.mem pb.toNat 12) 0).2 := by
+  obtain ⟨-, hv, hc, -⟩ := armv6m_bigint_384_add s pr pa pb fuel hfuel hst hpc h0 h1 h2 hlr hr ha hb hra hrb hstk hrs has hbs
+  obtain ⟨w, l, c, v⟩ := C02.bigint_add (B := 2 ^ 32) (c := 0) (Thumb1.limbs32_WF s.mem pa.toNat 12)
+    (Thumb1.limbs32_WF s.mem pb.toNat 12) (by simp [Thumb1.limbs32_length]) (by omega)
+  rw [Thumb1.limbs32_length] at l v
+  rw [pow32_12] at v
+  exact limbs32_carry_unique (Thumb1.limbs32_WF _ _ _) w (Thumb1.limbs32_length _ _ _) l hc c (by omega)
+
+/-- … and the same 384-bit number and the same returned carry as the AArch64 routine (`aarch64_bigint_384_add`; hence as the x86-64 one),
+on states whose operands denote the same numbers (twelve 32-bit limbs there, six 64-bit limbs here). -/
+theorem armv6m_bigint_384_add_agrees_aarch64 (s₁ : Thumb1.State) (s₂ : State) (pr₁ pa₁ pb₁ : Thumb1.Word) (pr₂ pa₂ pb₂ : Word) (f₁ f₂ : Nat) (hf₁ : 35 ≤ f₁) (hf₂ : 17 ≤ f₂)
+    (hst₁ : s₁.status = .running) (hpc₁ : s₁.pc = 0) (h0₁ : s₁.r0 = pr₁) (h1₁ : s₁.r1 = pa₁) (h2₁ : s₁.r2 = pb₁) (hlr₁ : s₁.lr.toNat % 2 = 1)
+    (hr₁ : Thumb1.Buf s₁ pr₁ 12 true) (ha₁ : Thumb1.Buf s₁ pa₁ 12 false) (hb₁ : Thumb1.Buf s₁ pb₁ 12 false)
+    (hra₁ : Thumb1.SameOrDisjoint pr₁ pa₁ 12) (hrb₁ : Thumb1.SameOrDisjoint pr₁ pb₁ 12)
+    (hstk₁ : Thumb1.Stack s₁ 3) (hrs₁ : Thumb1.OffStack s₁ 3 pr₁ 12) (has₁ : Thumb1.OffStack s₁ 3 pa₁ 12) (hbs₁ : Thumb1.OffStack s₁ 3 pb₁ 12)
+    (hst₂ : s₂.status = .running) (hpc₂ : s₂.pc = 0) (h0₂ : s₂.x0 = pr₂) (h1₂ : s₂.x1 = pa₂) (h2₂ : s₂.x2 = pb₂)
+    (hr₂ : Buf s₂ pr₂ 6 true) (ha₂ : Buf s₂ pa₂ 6 false) (hb₂ : Buf s₂ pb₂ 6 false)
+    (hra₂ : SameOrDisjoint pr₂ pa₂ 6) (hrb₂ : SameOrDisjoint pr₂ pb₂ 6)
+    (hA : val (2 ^ 32) (Thumb1.limbs32 s₁.mem pa₁.toNat 12) = val (2 ^ 64) (limbs s₂.mem pa₂.toNat 6))
+    (hB : val (2 ^ 32) (Thumb1.limbs32 s₁.mem pb₁.toNat 12) = val (2 ^ 64) (limbs s₂.mem pb₂.toNat 6)) :
+    val (2 ^ 32) (Thumb1.limbs32 (Thumb1.run Gen.AsmV6M.embedded_pairing_core_arch_armv6_m_bigint_384_add s₁ f₁).mem pr₁.toNat 12) = val (2 ^ 64) (limbs (run embedded_pairing_core_arch_aarch64_bigint_384_add s₂ f₂).mem pr₂.toNat 6) ∧
+    (Thumb1.run Gen.AsmV6M.embedded_pairing_core_arch_armv6_m_bigint_384_add s₁ f₁).r0.toNat = (run embedded_pairing_core_arch_aarch64_bigint_384_add s₂ f₂).x0.toNat := by
+  obtain ⟨-, v1, c1, -⟩ := armv6m_bigint_384_add s₁ pr₁ pa₁ pb₁ f₁ hf₁ hst₁ hpc₁ h0₁ h1₁ h2₁ hlr₁ hr₁ ha₁ hb₁ hra₁ hrb₁ hstk₁ hrs₁ has₁ hbs₁
+  obtain ⟨-, v2, c2, -⟩ := aarch64_bigint_384_add s₂ pr₂ pa₂ pb₂ f₂ hf₂ hst₂ hpc₂ h0₂ h1₂ h2₂ hr₂ ha₂ hb₂ hra₂ hrb₂
+  have b1 := limbs32_lt (Thumb1.run Gen.AsmV6M.embedded_pairing_core_arch_armv6_m_bigint_384_add s₁ f₁).mem pr₁.toNat
+  have b2 := limbs6_lt (run embedded_pairing_core_arch_aarch64_bigint_384_add s₂ f₂).mem pr₂.toNat
+  rw [hA, hB] at v1
+  generalize (Thumb1.run Gen.AsmV6M.embedded_pairing_core_arch_armv6_m_bigint_384_add s₁ f₁).r0.toNat = k1 at *
+  generalize (run embedded_pairing_core_arch_aarch64_bigint_384_add s₂ f₂).x0.toNat = k2 at *
+  have hc : k1 = k2 := by
+    rcases Nat.le_one_iff_eq_zero_or_eq_one.1 c1 with rfl | rfl <;>
+    rcases Nat.le_one_iff_eq_zero_or_eq_one.1 c2 with rfl | rfl <;> omega
+  subst hc
+  exact ⟨by omega, rfl⟩
+
+/-- ARMv6-M `bigint_384_subtract`: `res + b = a + 2^384·R0`, `R0 ≤ 1` (R0 = borrow: `sbc r0, r0, r0; neg r0, r0`). -/
+theorem armv6m_bigint_384_subtract (s : Thumb1.State) (pr pa pb : Thumb1.Word) (fuel : Nat) (hfuel : 35 ≤ fuel)
+    (hst : s.status = .running) (hpc : s.pc = 0) (h0 : s.r0 = pr) (h1 : s.r1 = pa) (h2 : s.r2 = pb) (hlr : s.lr.toNat % 2 = 1)
+    (hr : Thumb1.Buf s pr 12 true) (ha : Thumb1.Buf s pa 12 false) (hb : Thumb1.Buf s pb 12 false)
+    (hra : Thumb1.SameOrDisjoint pr pa 12) (hrb : Thumb1.SameOrDisjoint pr pb 12)
+    (hstk : Thumb1.Stack s 3) (hrs : Thumb1.OffStack s 3 pr 12) (has : Thumb1.OffStack s 3 pa 12) (hbs : Thumb1.OffStack s 3 pb 12) :
+    Thumb1.Returned s (Thumb1.run Gen.AsmV6M.embedded_pairing_core_arch_armv6_m_bigint_384_subtract s fuel) ∧
+    val (2 ^ 32) (Thumb1.limbs32 (Thumb1.run Gen.AsmV6M.embedded_pairing_core_arch_armv6_m_bigint_384_subtract s fuel).mem pr.toNat 12) + val (2 ^ 32) (Thumb1.limbs32 s.mem pb.toNat 12)
+      = val (2 ^ 32) (Thumb1.limbs32 s.mem pa.toNat 12) + 2 ^ 384 * (Thumb1.run Gen.AsmV6M.embedded_pairing_core_arch_armv6_m_bigint_384_subtract s fuel).r0.toNat ∧
+    (Thumb1.run Gen.AsmV6M.embedded_pairing_core_arch_armv6_m_bigint_384_subtract s fuel).r0.toNat ≤ 1 ∧
+    (∀ k, ¬(pr.toNat ≤ k ∧ k < pr.toNat + 48) → ¬(s.sp.toNat - 12 ≤ k ∧ k < s.sp.toNat) →
+      (Thumb1.run Gen.AsmV6M.embedded_pairing_core_arch_armv6_m_bigint_384_subtract s fuel).mem k = s.mem k) := by
+  obtain ⟨s', h, hret, rest⟩ := Thumb1.bigint_384_subtract_run s pr pa pb hst hpc h0 h1 h2 hlr hr ha hb hra hrb hstk hrs has hbs
+  rw [Thumb1.run_fuel h hret.halted fuel hfuel]
+  exact ⟨hret, rest⟩
+
+/-- … hence the limbs and the borrow of the portable `BigInt::subtract` on 32-bit words (`subLoop`, `C02.bigint_subtract`). -/
+theorem armv6m_bigint_384_subtract_eq_portable (s : Thumb1.State) (pr pa pb : Thumb1.Word) (fuel : Nat) (hfuel : 35 ≤ fuel)
+    (hst : s.status = .running) (hpc : s.pc = 0) (h0 : s.r0 = pr) (h1 : s.r1 = pa) (h2 : s.r2 = pb) (hlr : s.lr.toNat % 2 = 1)
+    (hr : Thumb1.Buf s pr 12 true) (ha : Thumb1.Buf s pa 12 false) (hb : Thumb1.Buf s pb 12 false)
+    (hra : Thumb1.SameOrDisjoint pr pa 12) (hrb : Thumb1.SameOrDisjoint pr pb 12)
+    (hstk : Thumb1.Stack s 3) (hrs : Thumb1.OffStack s 3 pr 12) (has : Thumb1.OffStack s 3 pa 12) (hbs : Thumb1.OffStack s 3 pb 12) :
+    Thumb1.limbs32 (Thumb1.run Gen.AsmV6M.embedded_pairing_core_arch_armv6_m_bigint_384_subtract s fuel).mem pr.toNat 12 = (subLoop (2 ^ 32) (Thumb1.limbs32 s.mem pa.toNat 12) (Thumb1.limbs32 s.mem pb.toNat 12) 0).1 ∧
+    (Thumb1.run Gen.AsmV6M.embedded_pairing_core_arch_armv6_m_bigint_384_subtract s fuel).r0.toNat = (subLoop (2 ^ 32) (Thumb1.limbs32 s.mem pa.toNat 12) (Thumb1.limbs32 s.mem pb.toNat 12) 0).2 := by
+  obtain ⟨-, hv, hc, -⟩ := armv6m_bigint_384_subtract s pr pa pb fuel hfuel hst hpc h0 h1 h2 hlr hr ha hb hra hrb hstk hrs has hbs
+  obtain ⟨w, l, c, v⟩ := C02.bigint_subtract (B := 2 ^ 32) (c := 0) (Thumb1.limbs32_WF s.mem pa.toNat 12)
+    (Thumb1.limbs32_WF s.mem pb.toNat 12) (by simp [Thumb1.limbs32_length]) (by omega)
+  rw [Thumb1.limbs32_length] at l v
+  rw [pow32_12] at v
+  have key := limbs32_carry_unique (Thumb1.limbs32_WF (Thumb1.run Gen.AsmV6M.embedded_pairing_core_arch_armv6_m_bigint_384_subtract s fuel).mem pr.toNat 12) w
+    (Thumb1.limbs32_length _ _ _) l c hc (by omega)
+  exact ⟨key.1, key.2.symm⟩
+
+/-- … and the same 384-bit number and the same returned carry as the AArch64 routine (`aarch64_bigint_384_subtract`; hence as the x86-64 one),
+on states whose operands denote the same numbers (twelve 32-bit limbs there, six 64-bit limbs here). -/
+theorem armv6m_bigint_384_subtract_agrees_aarch64 (s₁ : Thumb1.State) (s₂ : State) (pr₁ pa₁ pb₁ : Thumb1.Word) (pr₂ pa₂ pb₂ : Word) (f₁ f₂ : Nat) (hf₁ : 35 ≤ f₁) (hf₂ : 17 ≤ f₂)
+    (hst₁ : s₁.status = .running) (hpc₁ : s₁.pc = 0) (h0₁ : s₁.r0 = pr₁) (h1₁ : s₁.r1 = pa₁) (h2₁ : s₁.r2 = pb₁) (hlr₁ : s₁.lr.toNat % 2 = 1)
+    (hr₁ : Thumb1.Buf s₁ pr₁ 12 true) (ha₁ : Thumb1.Buf s₁ pa₁ 12 false) (hb₁ : Thumb1.Buf s₁ pb₁ 12 false)
+    (hra₁ : Thumb1.SameOrDisjoint pr₁ pa₁ 12) (hrb₁ : Thumb1.SameOrDisjoint pr₁ pb₁ 12)
+    (hstk₁ : Thumb1.Stack s₁ 3) (hrs₁ : Thumb1.OffStack s₁ 3 pr₁ 12) (has₁ : Thumb1.OffStack s₁ 3 pa₁ 12) (hbs₁ : Thumb1.OffStack s₁ 3 pb₁ 12)
+    (hst₂ : s₂.status = .running) (hpc₂ : s₂.pc = 0) (h0₂ : s₂.x0 = pr₂) (h1₂ : s₂.x1 = pa₂) (h2₂ : s₂.x2 = pb₂)
+    (hr₂ : Buf s₂ pr₂ 6 true) (ha₂ : Buf s₂ pa₂ 6 false) (hb₂ : Buf s₂ pb₂ 6 false)
+    (hra₂ : SameOrDisjoint pr₂ pa₂ 6) (hrb₂ : SameOrDisjoint pr₂ pb₂ 6)
+    (hA : val (2 ^ 32) (Thumb1.limbs32 s₁.mem pa₁.toNat 12) = val (2 ^ 64) (limbs s₂.mem pa₂.toNat 6))
+    (hB : val (2 ^ 32) (Thumb1.limbs32 s₁.mem pb₁.toNat 12) = val (2 ^ 64) (limbs s₂.mem pb₂.toNat 6)) :
+    val (2 ^ 32) (Thumb1.limbs32 (Thumb1.run Gen.AsmV6M.embedded_pairing_core_arch_armv6_m_bigint_384_subtract s₁ f₁).mem pr₁.toNat 12) = val (2 ^ 64) (limbs (run embedded_pairing_core_arch_aarch64_bigint_384_subtract s₂ f₂).mem pr₂.toNat 6) ∧
+    (Thumb1.run Gen.AsmV6M.embedded_pairing_core_arch_armv6_m_bigint_384_subtract s₁ f₁).r0.toNat = (run embedded_pairing_core_arch_aarch64_bigint_384_subtract s₂ f₂).x0.toNat := by
+  obtain ⟨-, v1, c1, -⟩ := armv6m_bigint_384_subtract s₁ pr₁ pa₁ pb₁ f₁ hf₁ hst₁ hpc₁ h0₁ h1₁ h2₁ hlr₁ hr₁ ha₁ hb₁ hra₁ hrb₁ hstk₁ hrs₁ has₁ hbs₁
+  obtain ⟨-, v2, c2, -⟩ := aarch64_bigint_384_subtract s₂ pr₂ pa₂ pb₂ f₂ hf₂ hst₂ hpc₂ h0₂ h1₂ h2₂ hr₂ ha₂ hb₂ hra₂ hrb₂
+  have b1 := limbs32_lt (Thumb1.run Gen.AsmV6M.embedded_pairing_core_arch_armv6_m_bigint_384_subtract s₁ f₁).mem pr₁.toNat
+  have b2 := limbs6_lt (run embedded_pairing_core_arch_aarch64_bigint_384_subtract s₂ f₂).mem pr₂.toNat
+  rw [hA, hB] at v1
+  generalize (Thumb1.run Gen.AsmV6M.embedded_pairing_core_arch_armv6_m_bigint_384_subtract s₁ f₁).r0.toNat = k1 at *
+  generalize (run embedded_pairing_core_arch_aarch64_bigint_384_subtract s₂ f₂).x0.toNat = k2 at *
+  have hc : k1 = k2 := by
+    rcases Nat.le_one_iff_eq_zero_or_eq_one.1 c1 with rfl | rfl <;>
+    rcases Nat.le_one_iff_eq_zero_or_eq_one.1 c2 with rfl | rfl <;> omega
+  subst hc
+  exact ⟨by omega, rfl⟩
+
+/-- ARMv6-M `bigint_384_multiply2`: `res + 2^384·R0 = 2·a`, `R0 ≤ 1`. -/
+theorem armv6m_bigint_384_multiply2 (s : Thumb1.State) (pr pa : Thumb1.Word) (fuel : Nat) (hfuel : 23 ≤ fuel)
+    (hst : s.status = .running) (hpc : s.pc = 0) (h0 : s.r0 = pr) (h1 : s.r1 = pa) (hlr : s.lr.toNat % 2 = 1)
+    (hr : Thumb1.Buf s pr 12 true) (ha : Thumb1.Buf s pa 12 false)
+    (hra : Thumb1.SameOrDisjoint pr pa 12)
+    (hstk : Thumb1.Stack s 2) (hrs : Thumb1.OffStack s 2 pr 12) (has : Thumb1.OffStack s 2 pa 12) :
+    Thumb1.Returned s (Thumb1.run Gen.AsmV6M.embedded_pairing_core_arch_armv6_m_bigint_384_multiply2 s fuel) ∧
+    val (2 ^ 32) (Thumb1.limbs32 (Thumb1.run Gen.AsmV6M.embedded_pairing_core_arch_armv6_m_bigint_384_multiply2 s fuel).mem pr.toNat 12) + 2 ^ 384 * (Thumb1.run Gen.AsmV6M.embedded_pairing_core_arch_armv6_m_bigint_384_multiply2 s fuel).r0.toNat = 2 * val (2 ^ 32) (Thumb1.limbs32 s.mem pa.toNat 12) ∧
+    (Thumb1.run Gen.AsmV6M.embedded_pairing_core_arch_armv6_m_bigint_384_multiply2 s fuel).r0.toNat ≤ 1 ∧
+    (∀ k, ¬(pr.toNat ≤ k ∧ k < pr.toNat + 48) → ¬(s.sp.toNat - 8 ≤ k ∧ k < s.sp.toNat) →
+      (Thumb1.run Gen.AsmV6M.embedded_pairing_core_arch_armv6_m_bigint_384_multiply2 s fuel).mem k = s.mem k) := by
+  obtain ⟨s', h, hret, rest⟩ := Thumb1.bigint_384_multiply2_run s pr pa hst hpc h0 h1 hlr hr ha hra hstk hrs has
+  rw [Thumb1.run_fuel h hret.halted fuel hfuel]
+  exact ⟨hret, rest⟩
+
+/-- … hence the limbs and the shifted-out bit of the portable `shift_left_in_word<1>` on 32-bit words (`shl1`, `C02.bigint_shl1`). -/
+theorem armv6m_bigint_384_multiply2_eq_portable (s : Thumb1.State) (pr pa : Thumb1.Word) (fuel : Nat) (hfuel : 23 ≤ fuel)
+    (hst : s.status = .running) (hpc : s.pc = 0) (h0 : s.r0 = pr) (h1 : s.r1 = pa) (hlr : s.lr.toNat % 2 = 1)
+    (hr : Thumb1.Buf s pr 12 true) (ha : Thumb1.Buf s pa 12 false)
+    (hra : Thumb1.SameOrDisjoint pr pa 12)
+    (hstk : Thumb1.Stack s 2) (hrs : Thumb1.OffStack s 2 pr 12) (has : Thumb1.OffStack s 2 pa 12) :
+    Thumb1.limbs32 (Thumb1.run Gen.AsmV6M.embedded_pairing_core_arch_armv6_m_bigint_384_multiply2 s fuel).mem pr.toNat 12 = (shl1 (2 ^ 32) (Thumb1.limbs32 s.mem pa.toNat 12)).1 ∧
+    (Thumb1.run Gen.AsmV6M.embedded_pairing_core_arch_armv6_m_bigint_384_multiply2 s fuel).r0.toNat = (shl1 (2 ^ 32) (Thumb1.limbs32 s.mem pa.toNat 12)).2 := by
+  obtain ⟨-, hv, hc, -⟩ := armv6m_bigint_384_multiply2 s pr pa fuel hfuel hst hpc h0 h1 hlr hr ha hra hstk hrs has
+  obtain ⟨w, l, c, v⟩ := C02.bigint_shl1 (B := 2 ^ 32) (by norm_num) (Thumb1.limbs32_WF s.mem pa.toNat 12)
+  rw [Thumb1.limbs32_length] at l v
+  rw [pow32_12] at v
+  exact limbs32_carry_unique (Thumb1.limbs32_WF _ _ _) w (Thumb1.limbs32_length _ _ _) l hc c (by omega)
+
+/-- … and the same 384-bit number and the same returned carry as the AArch64 routine (`aarch64_bigint_384_multiply2`; hence as the x86-64 one),
+on states whose operands denote the same numbers (twelve 32-bit limbs there, six 64-bit limbs here). -/
+theorem armv6m_bigint_384_multiply2_agrees_aarch64 (s₁ : Thumb1.State) (s₂ : State) (pr₁ pa₁ : Thumb1.Word) (pr₂ pa₂ : Word) (f₁ f₂ : Nat) (hf₁ : 23 ≤ f₁) (hf₂ : 14 ≤ f₂)
+    (hst₁ : s₁.status = .running) (hpc₁ : s₁.pc = 0) (h0₁ : s₁.r0 = pr₁) (h1₁ : s₁.r1 = pa₁) (hlr₁ : s₁.lr.toNat % 2 = 1)
+    (hr₁ : Thumb1.Buf s₁ pr₁ 12 true) (ha₁ : Thumb1.Buf s₁ pa₁ 12 false)
+    (hra₁ : Thumb1.SameOrDisjoint pr₁ pa₁ 12)
+    (hstk₁ : Thumb1.Stack s₁ 2) (hrs₁ : Thumb1.OffStack s₁ 2 pr₁ 12) (has₁ : Thumb1.OffStack s₁ 2 pa₁ 12)
+    (hst₂ : s₂.status = .running) (hpc₂ : s₂.pc = 0) (h0₂ : s₂.x0 = pr₂) (h1₂ : s₂.x1 = pa₂)
+    (hr₂ : Buf s₂ pr₂ 6 true) (ha₂ : Buf s₂ pa₂ 6 false)
+    (hra₂ : SameOrDisjoint pr₂ pa₂ 6)
+    (hA : val (2 ^ 32) (Thumb1.limbs32 s₁.mem pa₁.toNat 12) = val (2 ^ 64) (limbs s₂.mem pa₂.toNat 6)) :
+    val (2 ^ 32) (Thumb1.limbs32 (Thumb1.run Gen.AsmV6M.embedded_pairing_core_arch_armv6_m_bigint_384_multiply2 s₁ f₁).mem pr₁.toNat 12) = val (2 ^ 64) (limbs (run embedded_pairing_core_arch_aarch64_bigint_384_multiply2 s₂ f₂).mem pr₂.toNat 6) ∧
+    (Thumb1.run Gen.AsmV6M.embedded_pairing_core_arch_armv6_m_bigint_384_multiply2 s₁ f₁).r0.toNat = (run embedded_pairing_core_arch_aarch64_bigint_384_multiply2 s₂ f₂).x0.toNat := by
+  obtain ⟨-, v1, c1, -⟩ := armv6m_bigint_384_multiply2 s₁ pr₁ pa₁ f₁ hf₁ hst₁ hpc₁ h0₁ h1₁ hlr₁ hr₁ ha₁ hra₁ hstk₁ hrs₁ has₁
+  obtain ⟨-, v2, c2, -⟩ := aarch64_bigint_384_multiply2 s₂ pr₂ pa₂ f₂ hf₂ hst₂ hpc₂ h0₂ h1₂ hr₂ ha₂ hra₂
+  have b1 := limbs32_lt (Thumb1.run Gen.AsmV6M.embedded_pairing_core_arch_armv6_m_bigint_384_multiply2 s₁ f₁).mem pr₁.toNat
+  have b2 := limbs6_lt (run embedded_pairing_core_arch_aarch64_bigint_384_multiply2 s₂ f₂).mem pr₂.toNat
+  rw [hA] at v1
+  generalize (Thumb1.run Gen.AsmV6M.embedded_pairing_core_arch_armv6_m_bigint_384_multiply2 s₁ f₁).r0.toNat = k1 at *
+  generalize (run embedded_pairing_core_arch_aarch64_bigint_384_multiply2 s₂ f₂).x0.toNat = k2 at *
+  have hc : k1 = k2 := by
+    rcases Nat.le_one_iff_eq_zero_or_eq_one.1 c1 with rfl | rfl <;>
+    rcases Nat.le_one_iff_eq_zero_or_eq_one.1 c2 with rfl | rfl <;> omega
+  subst hc
+  exact ⟨by omega, rfl⟩
+
+section ExamplesThumb1
+private def exA32 : Nat := Gen.Consts.fq_modulus - 1
+private def exB32 : Nat := Gen.Consts.fq_modulus - 2
+
+private theorem t1buf_of (s : Thumb1.State) (p n : Nat) (w : Bool) (h1 : p + 4 * n ≤ 2 ^ 32) (h2 : p % 4 = 0) (h3 : p < 2 ^ 32)
+    (hr : ∀ i, i < n → s.readable (p + 4 * i) = true)
+    (hw : w = true → ∀ i, i < n → s.writable (p + 4 * i) = true) : Thumb1.Buf s (BitVec.ofNat 32 p) n w := by
+  have e : (BitVec.ofNat 32 p).toNat = p := by rw [BitVec.toNat_ofNat]; exact Nat.mod_eq_of_lt h3
+  exact ⟨by rw [e]; exact h1, by rw [e]; exact h2, by rw [e]; exact hr, by rw [e]; exact hw⟩
+
+private theorem t1stack_of (s : Thumb1.State) (n : Nat) (h2 : s.sp.toNat % 4 = 0) (h3 : 4 * n ≤ s.sp.toNat)
+    (h5 : ∀ i, i < n → s.readable (s.sp.toNat - 4 * (i + 1)) = true ∧ s.writable (s.sp.toNat - 4 * (i + 1)) = true) :
+    Thumb1.Stack s n :=
+  ⟨h2, h3, fun i hi1 hi2 => by
+    have := h5 (i - 1) (by omega)
+    rwa [show i - 1 + 1 = i by omega] at this⟩
+
+/-- ARMv6-M add / subtract on the judge's entry state (`Thumb1.entryState`): `res` is the same object as `a` -/
+private def exT1 : Thumb1.State :=
+  Thumb1.entryState ([0x20000, 0x20000, 0x21000].map (BitVec.ofNat 32))
+    [{ base := 0x20000, words := Thumb1.wordsOfNat 12 exA32, writable := true },
+     { base := 0x21000, words := Thumb1.wordsOfNat 12 exB32, writable := false }] 0x20004000 64 0
+
+example :
+    val (2 ^ 32) (Thumb1.limbs32 (Thumb1.run Gen.AsmV6M.embedded_pairing_core_arch_armv6_m_bigint_384_add exT1 100).mem 0x20000 12)
+      + 2 ^ 384 * (Thumb1.run Gen.AsmV6M.embedded_pairing_core_arch_armv6_m_bigint_384_add exT1 100).r0.toNat = exA32 + exB32 ∧
+    val (2 ^ 32) (Thumb1.limbs32 (Thumb1.run Gen.AsmV6M.embedded_pairing_core_arch_armv6_m_bigint_384_subtract exT1 100).mem 0x20000 12) + exB32
+      = exA32 + 2 ^ 384 * (Thumb1.run Gen.AsmV6M.embedded_pairing_core_arch_armv6_m_bigint_384_subtract exT1 100).r0.toNat := by
+  have hyp1 : Thumb1.Buf exT1 (BitVec.ofNat 32 0x20000) 12 true :=
+    t1buf_of _ _ _ _ (by decide) (by decide) (by decide) (by decide) (fun _ => by decide)
+  have hyp2 : Thumb1.Buf exT1 (BitVec.ofNat 32 0x20000) 12 false :=
+    t1buf_of _ _ _ _ (by decide) (by decide) (by decide) (by decide) (by decide)
+  have hyp3 : Thumb1.Buf exT1 (BitVec.ofNat 32 0x21000) 12 false :=
+    t1buf_of _ _ _ _ (by decide) (by decide) (by decide) (by decide) (by decide)
+  have h1 := (armv6m_bigint_384_add exT1 (BitVec.ofNat 32 0x20000) (BitVec.ofNat 32 0x20000) (BitVec.ofNat 32 0x21000) 100
+    (by decide) rfl rfl rfl rfl rfl (by decide) hyp1 hyp2 hyp3
+    (Or.inl rfl) (Or.inr (by unfold Thumb1.Disjoint; decide))
+    (t1stack_of _ _ (by decide) (by decide) (by decide))
+    (by unfold Thumb1.OffStack; decide) (by unfold Thumb1.OffStack; decide) (by unfold Thumb1.OffStack; decide)).2.1
+  have h2 := (armv6m_bigint_384_subtract exT1 (BitVec.ofNat 32 0x20000) (BitVec.ofNat 32 0x20000) (BitVec.ofNat 32 0x21000) 100
+    (by decide) rfl rfl rfl rfl rfl (by decide) hyp1 hyp2 hyp3
+    (Or.inl rfl) (Or.inr (by unfold Thumb1.Disjoint; decide))
+    (t1stack_of _ _ (by decide) (by decide) (by decide))
+    (by unfold Thumb1.OffStack; decide) (by unfold Thumb1.OffStack; decide) (by unfold Thumb1.OffStack; decide)).2.1
+  rw [show (BitVec.ofNat 32 0x20000).toNat = 0x20000 by decide] at h1 h2
+  rw [show (BitVec.ofNat 32 0x21000).toNat = 0x21000 by decide] at h1 h2
+  have ea : val (2 ^ 32) (Thumb1.limbs32 exT1.mem 0x20000 12) = exA32 := by decide
+  have eb : val (2 ^ 32) (Thumb1.limbs32 exT1.mem 0x21000 12) = exB32 := by decide
+  rw [ea, eb] at h1 h2
+  exact ⟨h1, h2⟩
+end ExamplesThumb1
 
 end Jedi.C03
